@@ -57,10 +57,24 @@ static const char *probe_names[PR_MAX] = {
 	"thread_exit_nodeinit", "sig_cb", "sig_during_handler", "sig_handoff", "wait_cb",
 	"pid_reused", "kill_dead", "work_run", "work_done", "pool_put_busy", "idle_timeout",
 	"pump_bytes", "pump_full", "pump_eof", "inot_cb", "inot_multi", "popen_kill",
-	"reg_failed_event", "timer_many", "radix_cross", "sig_nowalk", "sig_foreign_thread", "reg_failed_ext", "timer_parked", "reenter_after_quit", "pump_kick", "work_depends", "task_foreign_init", "inot_flood",
+	"reg_failed_event", "timer_many", "radix_cross", "sig_nowalk", "sig_foreign_thread", "reg_failed_ext", "timer_parked", "reenter_after_quit", "pump_kick", "work_depends", "task_foreign_init", "inot_flood", "unreg_event_post_in_flight",
 };
 
 extern int __llvm_profile_write_file(void) __attribute__((weak));
+
+/* cross-thread posts on iv_events that are in flight: which object each thread is posting to, and whether
+ * that post has already left the critical section in which it queues the event (from then on the
+ * unchanged library does not touch the event any more, and its owner may free it) */
+static int posting_obj[SIMK_MAXT];
+static int post_unlocked[SIMK_MAXT];
+
+void engine_lock_event(int tid, int acquired, int spin)
+{
+	if (!spin && !acquired && tid >= 0 && tid < SIMK_MAXT && posting_obj[tid] && !post_unlocked[tid]) {
+		post_unlocked[tid] = 1;
+		RO[posting_obj[tid] - 1].xi[0]++;
+	}
+}
 
 long faults_fired_total(void)
 {
@@ -705,6 +719,7 @@ static int op_reg(struct rthr *th, int id, const struct pop *op)
 		}
 		o->registered = 1;
 		o->posts = o->entries = 0;
+		o->xi[0] = o->xi[1] = 0;
 		o->post_begin_seq = o->post_done_seq = o->last_entry_seq = 0;
 		hb_release(o);
 		break;
@@ -770,6 +785,14 @@ int op_unreg(struct rthr *th, int id, int keep)
 		iv_task_unregister(o->mem);
 		break;
 	case K_EVENT:
+		if (PL->obj[id].p[0] == 2 && th->depth > 0 && th->cur_obj == id && th->cur_kind == K_EVENT &&
+		    o->posting == (int)o->xi[0] && !teardown_phase && !th->post_main) {
+			/* a one-shot event that other threads post to: its handler may unregister and free it,
+			 * also while posts that have already queued it are still on their way out */
+			if (o->posting > 0)
+				PROBE[PR_UNREG_INFLIGHT]++;
+			o->closing = 1;		/* from this instant no other thread starts a post on it */
+		} else
 		if (PL->obj[id].p[0] && !teardown_phase && !th->post_main)
 			return 0;	/* pinned */
 		hb_acquire(o);
@@ -836,6 +859,9 @@ int op_post(struct rthr *th, int id, int limited)
 		return 0;	/* only pinned objects may be posted to from other threads */
 	if ((teardown_started || o->closing) && !mine)
 		return 0;
+	if (!mine && po->kind == K_EVENT && po->p[0] == 2 && o->xi[1] >= 1)
+		return 0;	/* a one-shot event gets one post from outside: whoever posts it knows that the owner
+				 * may free it as soon as the handler has run, and does not touch it again */
 	if (limited && o->posts >= 4 * CB_LIMIT)
 		return 0;
 	if (o->post_begin_seq > o->last_entry_seq)
@@ -847,9 +873,20 @@ int op_post(struct rthr *th, int id, int limited)
 	simk_log(101, OP_POST, id);
 	if (!mine)
 		hb_acquire(o);
-	if (po->kind == K_EVENT)
+	if (po->kind == K_EVENT) {
+		int self = simk_self();
+		if (!mine) {
+			posting_obj[self] = id + 1;
+			post_unlocked[self] = 0;
+			o->xi[1]++;
+		}
 		iv_event_post(o->mem);
-	else
+		if (!mine) {
+			if (post_unlocked[self])
+				o->xi[0]--;
+			posting_obj[self] = 0;
+		}
+	} else
 		iv_event_raw_post(o->mem);
 	if (!mine)
 		hb_release(o);
